@@ -44,6 +44,9 @@ def _case(draw):
         case["_algo"] = draw(st.sampled_from(list(pkg.ALGOS)))
     # the optional entry of leaf_syntenies for the root of the object tree (a prescribed root order)
     case["_proot"] = draw(st.booleans())
+    case["_alt_fams"] = draw(st.booleans())
+    # colour values are strings as far as (de)serialisation goes: short hex, named, upper/lower case all come back verbatim
+    case["_odd_colours"] = gen.chance(draw, 1, 3)
     return case
 
 
@@ -164,7 +167,20 @@ def check(case):
     )
 
     kind = case["_kind"]
+    if case.get("_alt_fams"):
+        # family names whose natural-sort, string-sort and case orders differ, digit-leading ones included
+        fams0 = sorted({f for v in case["leaf_syntenies"].values() for f in v})
+        if all(f[:1] == "g" and f[1:].isdigit() for f in fams0):
+            case = gen.rename_families(case, gen.alt_family_map(fams0, salt=len(case["object_tree"])))
     base = {k: v for k, v in case.items() if not k.startswith("_")}
+    if case.get("_odd_colours"):
+        odd = ["f80", "F80", "red", "0af", "000", "fff", "DarkOliveGreen", "00ff0"]
+        for key in ("object_tree", "species_tree"):
+            t = parse_newick(base[key])
+            for n in t.nodes():
+                if "color" in t.features[n]:
+                    t.features[n]["color"] = odd[(n + len(base[key])) % len(odd)]
+            base[key] = t.to_newick()
     inst = Instance(base, label=False)
     labels = [f"kind={kind}", f"obj={len(inst.oleaves)}"]
     coloured = "color=" in base["object_tree"] or "color=" in base["species_tree"]
